@@ -2,6 +2,7 @@ package c15
 
 import (
 	"errors"
+	"flag"
 	"fmt"
 	"sort"
 	"strings"
@@ -507,3 +508,226 @@ func TestModel(t *testing.T) { propSession.Run(t) }
 
 var _ = sort.Strings
 var _ = strings.TrimSpace
+
+// ---- absolute timeout (wall clock) ----------------------------------------------------------------------------
+//
+// AbsoluteTimeout is measured with time.Now(), which the virtual clock does not reach, so these few cases run in real
+// time: requests are sent on a grid of 300 ms, the absolute timeout is 750 ms, so every request is 150 ms away from any
+// deadline. A case whose requests drift more than 100 ms from the grid (busy machine) is skipped, never failed.
+
+type AbsStep struct {
+	Wait int      // grid units to wait before the request (1 or 2)
+	Ops  []string // in the handler: set | reget (store API: Save, Release, Get again) | reset | regen
+}
+
+type AbsCase struct {
+	API   string // middleware | store
+	Steps []AbsStep
+}
+
+const absUnit, absTimeout = 300 * time.Millisecond, 750 * time.Millisecond
+
+func checkAbs(c AbsCase) vk.Verdict {
+	ctr := 0
+	issued := map[string]bool{}
+	// the idle timeout must not exceed the absolute one; the storage counts it on the (frozen) virtual clock, so only the
+	// absolute timeout ever ends a session here
+	clockMu.Lock()
+	defer clockMu.Unlock()
+	vk.SetNow(4_000_000)
+	cfg := session.Config{IdleTimeout: 500 * time.Millisecond, AbsoluteTimeout: absTimeout, Storage: vk.NewStorage(), KeyGenerator: func() string {
+		ctr++
+		id := fmt.Sprintf("abs-%d", ctr)
+		issued[id] = true
+		return id
+	}}
+	var ops []string
+	var step int
+	var seenID, endID, seenA, herr string
+	allowReget := false
+	run := func(ctx fiber.Ctx, sess *session.Session, store *session.Store) *session.Session {
+		seenID = sess.ID()
+		seenA, _ = sess.Get("a").(string)
+		for j, op := range ops {
+			switch op {
+			case "set":
+				sess.Set("a", fmt.Sprintf("v%d_%d", step, j))
+			case "reset":
+				if err := sess.Reset(); err != nil {
+					herr = err.Error()
+				}
+			case "regen":
+				if err := sess.Regenerate(); err != nil {
+					herr = err.Error()
+				}
+			case "reget":
+				// only as the first thing a handler does with a live session: then the second Get must find the very same
+				// stored session again (what a second Get means after an expiry, Reset or Regenerate in the same request
+				// is not determined by the statement)
+				if store != nil && j == 0 && allowReget {
+					if err := sess.Save(); err != nil {
+						herr = err.Error()
+					}
+					sess.Release()
+					s2, err := store.Get(ctx)
+					if err != nil {
+						herr = err.Error()
+						return nil
+					}
+					sess = s2
+				}
+			}
+		}
+		endID = sess.ID()
+		return sess
+	}
+	app := fiber.New()
+	if c.API == "middleware" {
+		app.Use(session.New(cfg))
+		app.Get("/", func(ctx fiber.Ctx) error {
+			m := session.FromContext(ctx)
+			run(ctx, m.Session, nil)
+			return nil
+		})
+	} else {
+		store := session.NewStore(cfg)
+		app.Get("/", func(ctx fiber.Ctx) error {
+			sess, err := store.Get(ctx)
+			if err != nil {
+				herr = err.Error()
+				return nil
+			}
+			if sess = run(ctx, sess, store); sess != nil {
+				if err := sess.Save(); err != nil {
+					herr = err.Error()
+				}
+				sess.Release()
+			}
+			return nil
+		})
+	}
+	type msess struct {
+		a        string
+		deadline time.Duration // on the planned time axis
+	}
+	model := map[string]*msess{}
+	cred := ""
+	start := time.Now()
+	planned := time.Duration(0)
+	sawExpiry, sawResetThenExpiry := false, false
+	resetAt := map[string]bool{}
+	for i, st := range c.Steps {
+		planned += time.Duration(st.Wait) * absUnit
+		if d := time.Until(start.Add(planned)); d > 0 {
+			time.Sleep(d)
+		}
+		if drift := time.Since(start) - planned; drift > 100*time.Millisecond || drift < -100*time.Millisecond {
+			return vk.Verdict{Skip: true}
+		}
+		ops, step, herr = st.Ops, i, ""
+		allowReget = model[cred] != nil && planned < model[cred].deadline
+		var hdr []string
+		if cred != "" {
+			hdr = []string{"Cookie", "session_id=" + cred}
+		}
+		resp := vk.Do(app, "GET", "/", hdr...)
+		if drift := time.Since(start) - planned; drift > 100*time.Millisecond {
+			return vk.Verdict{Skip: true}
+		}
+		ctx := fmt.Sprintf("step %d at +%v (api=%s, client presents %q, handler ops %v; absolute timeout %v)", i, planned, c.API, cred, st.Ops, absTimeout)
+		if herr != "" || resp.Response.StatusCode() != 200 {
+			return vk.Failf("%s: status %d %s", ctx, resp.Response.StatusCode(), herr)
+		}
+		m := model[cred]
+		if m != nil && planned > m.deadline {
+			sawExpiry = true
+			if resetAt[cred] {
+				sawResetThenExpiry = true
+			}
+			delete(model, cred)
+			m = nil
+		}
+		if m != nil {
+			if seenID != cred || seenA != m.a {
+				return vk.Failf("%s: the session is %v short of its absolute deadline, the handler got id %q with a=%q, want id %q with a=%q", ctx, m.deadline-planned, seenID, seenA, cred, m.a)
+			}
+		} else {
+			if seenA != "" || !issued[seenID] || seenID == cred {
+				why := "the presented id is unknown"
+				if cred != "" {
+					why = "the absolute timeout of the presented session has passed"
+				}
+				return vk.Failf("%s: %s, the handler got id %q with a=%q, want a fresh server-generated session without data", ctx, why, seenID, seenA)
+			}
+			m = &msess{deadline: planned + absTimeout}
+		}
+		cur := seenID
+		for j, op := range st.Ops {
+			switch op {
+			case "set":
+				m.a = fmt.Sprintf("v%d_%d", i, j)
+			case "reset":
+				// a reset session is a new session: new id, no data, a deadline of its own
+				delete(model, cur)
+				m = &msess{deadline: planned + absTimeout}
+				cur = ""
+				resetAt["next"] = true
+			case "regen":
+				delete(model, cur) // same session under a new id: data and deadline stay
+				cur = ""
+			}
+		}
+		if cur == "" {
+			cur = endID
+			if !issued[cur] || cur == seenID {
+				return vk.Failf("%s: after reset/regenerate the session id is %q (was %q)", ctx, cur, seenID)
+			}
+		} else if endID != cur {
+			return vk.Failf("%s: session id changed from %q to %q without reset/regenerate", ctx, cur, endID)
+		}
+		if resetAt["next"] {
+			delete(resetAt, "next")
+			resetAt[cur] = true
+		}
+		delete(model, seenID)
+		model[cur] = m
+		ck := fasthttp.AcquireCookie()
+		ck.SetKey("session_id")
+		if resp.Response.Header.Cookie(ck) && len(ck.Value()) > 0 {
+			cred = string(ck.Value())
+		}
+		fasthttp.ReleaseCookie(ck)
+		if cred != cur {
+			return vk.Failf("%s: the session was saved under id %q but the client now holds %q", ctx, cur, cred)
+		}
+	}
+	v := vk.Verdict{NonTrivial: sawExpiry, Classes: []string{"abs-api:" + c.API}}
+	if sawExpiry {
+		v.Classes = append(v.Classes, "absolute-deadline-passed")
+	}
+	if sawResetThenExpiry {
+		v.Classes = append(v.Classes, "deadline-of-a-reset-session-passed")
+	}
+	return v
+}
+
+var propAbs = vk.Register(&vk.Prop[AbsCase]{Property: property, Name: "absolute", Check: checkAbs, Quick: 6, Thorough: 24,
+	Gen: func(t *rapid.T) AbsCase {
+		c := AbsCase{API: rapid.SampledFrom([]string{"middleware", "store"}).Draw(t, "api")}
+		n := rapid.IntRange(3, 6).Draw(t, "n")
+		for i := 0; i < n; i++ {
+			st := AbsStep{Wait: rapid.SampledFrom([]int{1, 1, 2}).Draw(t, "wait")}
+			k := rapid.IntRange(0, 2).Draw(t, "nops")
+			for j := 0; j < k; j++ {
+				st.Ops = append(st.Ops, rapid.SampledFrom([]string{"set", "set", "reget", "reset", "regen"}).Draw(t, "op"))
+			}
+			c.Steps = append(c.Steps, st)
+		}
+		return c
+	}})
+
+func TestAbsolute(t *testing.T) {
+	_ = flag.Set("rapid.shrinktime", "1ns") // cases run in real time and are small: no minimisation
+	defer func() { _ = flag.Set("rapid.shrinktime", "30s") }()
+	propAbs.Run(t)
+}
